@@ -44,6 +44,13 @@ def gen_job(rng, cls, density=0.25):
             and q not in (('MIN_SEP_VALS',), ('MIN_SEP_LIMS',), ('BASE_LVL_LOOKBACK_PERC',))]
     k = len(pool) if density >= 1.0 else sum(1 for _ in pool if rng.random() < density)
     extra = prmspace.gen_leaf_values(rng, dflt, n_leaves=0, must=rng.sample(pool, k))
+    # keep the workload affordable: very fine slicing multiplies the number of slices (and the
+    # line events of a run by 10-20x) without adding kinds of shared state
+    cheap = {('SLICING_PRMS', 'distance_threshold'): [0.15, 0.3, 0.5],
+             ('SLICING_PRMS', 'height_scale_kwargs', 'min_range'): [2000, 4000, 600]}
+    for q, vals in cheap.items():
+        if q in extra and extra[q] not in vals:
+            extra[q] = rng.choice(vals[:2])
     for q, v in extra.items():
         base.setdefault(q, v)
     scene['prms'] = prmspace.assign_from_leaves(base)
@@ -118,11 +125,13 @@ def simulate(jobs, sched, refs, census=None, clock_seed=0):
     return sim, bad
 
 
-def references(jobs, clock_seed=0):
+def references(jobs, clock_seed=0, census=None, dirty=None):
     refs = []
     with seams.scripted_clock(kernel.stream(clock_seed, 'clock-ref')):
         for i, scene in enumerate(jobs):
-            refs.append(threads.reference_run(make_job(scene, i)))
+            refs.append(threads.reference_run(make_job(scene, i), census=census))
+            if dirty is not None:
+                dirty.append(list(threads.reference_run.last_dirty))
     return refs
 
 
@@ -182,6 +191,35 @@ def shrink(vio, evaluate):
 SCHEDULES_PER_JOBSET = 3
 
 
+def window_enum(jobs, refs, dirty, seed, out, bump):
+    """Escalation: if a job, run alone, ever has process-global state in flight (fingerprint
+    changes), enumerate the schedules whose (up to 4) switches sit at the edges of those windows.
+    Costs one fingerprinted solo run per job; enumerates nothing on a tree without such windows.
+    Returns True when a violation was recorded."""
+    bump('probe.jobs_profiled_for_dirty_windows', len(jobs))
+    if not any(dirty):
+        return False
+    bump('probe.jobs_with_global_state_in_flight', sum(1 for d in dirty if d))
+    if len(jobs) > 2:       # enumerate for the two workers with the most windows
+        order = sorted(range(len(jobs)), key=lambda i: -len(dirty[i]))[:2]
+        jobs, refs, dirty = ([x[i] for i in sorted(order)] for x in (jobs, refs, dirty))
+    scheds = threads.window_schedules(dirty, [r[1] for r in refs],
+                                      kernel.stream(seed, 'window-enum'))
+    for sched in scheds:
+        sim, bad = simulate(jobs, threads.Replay(sched), refs, clock_seed=seed)
+        out['n_eval'] += 1
+        out['steps'] += sum(sim.steps)
+        bump('fault.switch_at_dirty_window_edge', sim.switches)
+        skey = kernel.sha([kernel.sha([j['rows'][:4] for j in jobs]), sched])
+        out['sets']['interleavings'].add(skey)
+        out['sigs'].append('window:' + skey)
+        if bad:
+            out['violations'].append(_line_violation(jobs, sim.compact_schedule(), bad,
+                                                     'dirty-window enumeration', seed))
+            return True
+    return False
+
+
 def run_line(seed, out, bump):
     rng_scene = kernel.stream(seed, 'scene')
     n_workers = rng_scene.choice([2, 2, 3])
@@ -189,7 +227,8 @@ def run_line(seed, out, bump):
     classes += [rng_scene.choice(LINE_CLASSES) for _ in range(n_workers - 1)]
     rng_scene.shuffle(classes)
     jobs = [gen_job(rng_scene, c) for c in classes]
-    refs = references(jobs, seed)
+    dirty = []
+    refs = references(jobs, seed, census=Census(), dirty=dirty)
     for scene, ref in zip(jobs, refs):
         if ref[0][0] == 'exc' and ref[0][1] != 'AmpycloudError':
             bump('scenes_discarded')       # C08's question, not ours
@@ -203,6 +242,8 @@ def run_line(seed, out, bump):
     for ref in refs:
         for k, v in ref[3].items():
             fn_counts[k] = max(fn_counts.get(k, 0), v)
+    if window_enum(jobs, refs, dirty, seed, out, bump):
+        return
     for k in range(SCHEDULES_PER_JOBSET):
         rng_sched = kernel.stream(seed, f'sched-{k}')
         sched = pick_strategy(rng_sched, n_workers, total, fn_counts)
@@ -436,7 +477,7 @@ def plan(tier, master):
         for lo in range(0, 900, 15):
             runs.append({'kind': 'sweep', 'seed': kernel.run_seed(PROP, master, f'sweep-{p}'),
                          'dir': d, 'occ': o, 'lo': lo, 'hi': lo + 15, 'dense': p % 2 == 0})
-    n_jobsets = 96 if tier == 'quick' else 3000     # x SCHEDULES_PER_JOBSET simulated runs
+    n_jobsets = 64 if tier == 'quick' else 3000     # x SCHEDULES_PER_JOBSET simulated runs
     per = 2
     for i in range(0, n_jobsets, per):
         runs.append({'kind': 'line', 'seeds': [kernel.run_seed(PROP, master, i + j)
